@@ -34,7 +34,11 @@ ASSUMPTIONS = ["pvm/ref/ofwire.py states the OpenFlow 1.0.0 layouts correctly",
 REQUIRED = ["objects", "layout_compared", "roundtrips", "table_dispatch",
             "action_lists", "stats_bodies", "nicira_objects",
             "nx_layouts_checked", "earlier_objects_rechecked",
-            "objects_reused_with_new_payload"]
+            "objects_reused_with_new_payload",
+            "structured_bodies_changed_and_reencoded",
+            "objects_compared_before_and_after_encoding",
+            "nx_action_bodies_compared", "nx_message_bodies_compared",
+            "nxm_numbers_compared"]
 TIMEOUT = {"quick": 900, "thorough": 7200}
 
 # wildcard bit constants (OpenFlow 1.0 spec)
@@ -96,6 +100,32 @@ def safe_len (ctx, obj, cname):
     return None
 
 
+def _norm_asked (x, top=True):
+  """Two things the encoder is allowed to fill in on the caller's object: a
+  field left at None (derived from the body), and the max_len of an output
+  action to a port other than the controller (meaningless there; the library
+  sends and stores 0)."""
+  if isinstance(x, dict):
+    d = {k: _norm_asked(v, False) for k, v in x.items()}
+    if d.get("type") == 0 and "max_len" in d and d.get("port") != 0xfffd:
+      d["max_len"] = 0
+    return d
+  if isinstance(x, (list, tuple)):
+    return [_norm_asked(v, False) for v in x]
+  return x
+
+
+def _same_asked (before, after):
+  b = _norm_asked(before); a = _norm_asked(after)
+  if isinstance(b, list) and len(b) == 2 and isinstance(b[1], dict):
+    for k, v in list(b[1].items()):
+      if v is None: a[1][k] = None
+  elif isinstance(b, dict):
+    for k, v in list(b.items()):
+      if v is None and isinstance(a, dict): a[k] = None
+  return a == b
+
+
 # -- message ---------------------------------------------------------------
 
 _earlier = {}
@@ -108,9 +138,23 @@ def check_message (ctx, m, rng):
   import pox.openflow.libopenflow_01 as of
   from pox.openflow.util import make_type_to_unpacker_table
   cname = type(m).__name__
+  # the caller's values, read before the encoder has touched the object
+  try: asked = ofgen.message_fields(m)
+  except Exception: asked = None
   b = safe_pack(ctx, m, cname)
   if b is None: return None
   ctx.rep.count("objects")
+  if asked is not None:
+    try:
+      if not _same_asked(asked, ofgen.message_fields(m)):
+        now = ofgen.message_fields(m)
+        diff = [k for k in asked[1] if asked[1].get(k) != now[1].get(k)]
+        ctx.fire(cname, "encoding changed the object's own fields",
+                 "fields %r: %r -> %r" % (diff, {k: asked[1][k] for k in diff[:3]},
+                                          {k: now[1].get(k) for k in diff[:3]}))
+      ctx.rep.count("objects_compared_before_and_after_encoding")
+    except Exception:
+      pass
   n = safe_len(ctx, m, cname)
   if n is not None and n != len(b):
     ctx.fire(cname, "len(obj) != len(pack())", "%d vs %d" % (n, len(b)))
@@ -232,7 +276,94 @@ def check_message (ctx, m, rng):
   except Exception as e:
     ctx.fire(cname, "type->unpacker table raises %s" % type(e).__name__,
              repr(e))
+  reuse_structured(ctx, m, cname, b)
   return b
+
+
+def _bump (obj):
+  """Change one scalar field of a statistics body / list element in place."""
+  for f in ("port_no", "table_id", "queue_id", "out_port", "priority", "tx_bytes",
+            "byte_count", "max_entries"):
+    v = getattr(obj, f, None)
+    if isinstance(v, int):
+      setattr(obj, f, (v + 1) & 0xff)
+      return True
+  return False
+
+
+def reuse_structured (ctx, m, cname, b):
+  """
+  The same statistics message used again after its body object was replaced,
+  after an entry was appended to its list, after a field of an entry was
+  changed: every encoding must describe the object as it is at that moment
+  (header length = byte count, specified layout).
+  """
+  import pox.openflow.libopenflow_01 as of
+  if not isinstance(m, (of.ofp_stats_request, of.ofp_stats_reply)): return
+  if len(b) > 30000: return
+  body = m.body
+  steps = []
+  try:
+    if isinstance(body, (list, tuple)) and len(body) and hasattr(body[0], "pack"):
+      def append ():
+        e = _clone(body[0])
+        _bump(e); m.body.append(e)
+      def change (): _bump(m.body[0])
+      def drop (): del m.body[-1]
+      if isinstance(body, list): steps = [("an entry appended", append), ("an entry changed", change),
+                                          ("an entry removed", drop)]
+    elif hasattr(body, "pack") and not isinstance(body, bytes):
+      def replace ():
+        e = _clone(body)
+        if not _bump(e): raise _Skip()
+        m.body = e
+      steps = [("the body object replaced", replace)]
+  except Exception:
+    return
+  for what, fn in steps:
+    try:
+      fn()
+    except _Skip:
+      continue
+    except Exception:
+      # (cloning an entry is the harness's business; what it cannot clone it
+      #  does not judge)
+      return
+    ctx.rep.count("structured_bodies_changed_and_reencoded")
+    b5 = safe_pack(ctx, m, cname + " (%s)" % what)
+    if b5 is None: return
+    if len(b5) >= 8 and struct.unpack_from("!H", b5, 2)[0] != len(b5):
+      ctx.fire(cname, "header length field != byte count after %s" % what,
+               "field %d, bytes %d" % (struct.unpack_from("!H", b5, 2)[0], len(b5)))
+      return
+    try:
+      name, fields = ofgen.message_fields(m)
+      exp = ofwire.enc_message(name, fields)
+    except Exception:
+      return
+    if b5 != exp:
+      i = first_diff(b5, exp)
+      ctx.fire(cname, "object reused after %s encodes stale values" % what,
+               "at byte %d: got %s, spec %s" %
+               (i, hexs(b5[max(0, i - 4):i + 12]), hexs(exp[max(0, i - 4):i + 12])))
+      return
+
+
+class _Skip (Exception): pass
+
+
+def _clone (x):
+  e = type(x)()
+  raw = x.pack()
+  if _takes_avail(e): e.unpack(raw, 0, len(raw))
+  else: e.unpack(raw, 0)
+  return e
+
+
+def _takes_avail (e):
+  import inspect
+  try: return len(inspect.signature(e.unpack).parameters) >= 3
+  except Exception: return False
 
 
 # -- plain structures --------------------------------------------------------
@@ -245,9 +376,18 @@ def check_struct (ctx, obj, enc, fields_of, rng, unpack_kind="plain",
   'stats' (o.unpack(raw, off, avail) -> off)
   """
   cname = type(obj).__name__
+  try: asked = fields_of(obj) if enc is not None else None
+  except Exception: asked = None
   b = safe_pack(ctx, obj, cname)
   if b is None: return None
   ctx.rep.count("objects")
+  if asked is not None:
+    try:
+      if not _same_asked(asked, fields_of(obj)):
+        ctx.fire(cname, "encoding changed the object's own fields",
+                 "%r -> %r" % (asked, fields_of(obj)))
+    except Exception:
+      pass
   n = safe_len(ctx, obj, cname)
   if n is not None and n != len(b):
     ctx.fire(cname, "len(obj) != len(pack())", "%d vs %d" % (n, len(b)))
